@@ -776,7 +776,9 @@ def check(run):
             run.dist("module:mutant:" + kind)
             rp = {"kind": "module", "natoms": natoms, "positions": pos, "config": mconf.decode("latin1"), "base": name, "mutation": descr}
             if rc < 0 or rc == 124:
-                run.violation("crash:module", "the parser %s on a %s mutant of %s (%s)" % ("timed out" if rc == 124 else "died with signal %d" % -rc, kind, name, descr), rp)
+                site = "hang" if rc == 124 else crash_site(unit, d, scenario(natoms, pos, mconf, 1), e2, None)
+                run.violation("crash:" + site, "the parser %s on a %s mutant of %s (%s) in %s" % (
+                    "timed out" if rc == 124 else "died with signal %d" % -rc, kind, name, descr, site), rp)
             elif s2 == "ok":
                 sig = "strict:module:%s-accepted" % kind
                 if kind == "text-for-number":
